@@ -247,7 +247,7 @@ func genC20(r *core.Rand, env *core.Env, run int) *Scenario {
 		case 1:
 			return bs("select", "-1")
 		case 2:
-			return bs("select", pick(r, []string{"x", "", "1.5", " 0", "99999999999999999999"}))
+			return bs("select", pick(r, []string{"x", "", "1.5", " 0", "99999999999999999999", "+1", "01", "0x1", "1 ", "1e0"}))
 		case 3:
 			return bs("select")
 		case 4:
